@@ -1,6 +1,7 @@
 package props
 
 import (
+	"encoding/json"
 	"fmt"
 	"regexp"
 	"sort"
@@ -361,4 +362,41 @@ func noRevPair(s *model.Scenario) bool {
 		}
 	}
 	return false
+}
+
+// addOlderRevision (with probability 1/den) turns one module of the scenario
+// into revision 2021-05-05 and adds an older revision 2019-03-03 of it that
+// differs: an extra leaf, possibly one identity less, its first typedef based
+// on another built-in type.  It returns the module name, or "".
+func addOlderRevision(rt *tape.Tape, s *model.Scenario, den int) string {
+	if !rt.Chance(1, den) {
+		return ""
+	}
+	var cand []*model.Mod
+	for _, m := range s.Mods {
+		if !m.IsSub() && len(m.Includes) == 0 && len(m.Deviations) == 0 && len(m.Revs) == 0 {
+			cand = append(cand, m)
+		}
+	}
+	if len(cand) == 0 {
+		return ""
+	}
+	m := cand[rt.Intn(len(cand))]
+	m.Revs = []string{"2021-05-05"}
+	b, _ := json.Marshal(m)
+	older := &model.Mod{}
+	json.Unmarshal(b, older)
+	older.Revs = []string{"2019-03-03"}
+	older.Augments = nil
+	older.Body = append(older.Body, &model.Node{Kind: model.KLeaf, Name: "only-in-older-revision", Type: &model.Type{Ref: model.Ref{Name: "string"}}})
+	if len(older.Identities) > 0 && rt.Chance(1, 2) {
+		older.Identities = older.Identities[:len(older.Identities)-1]
+	}
+	if len(older.Typedefs) > 0 {
+		td := older.Typedefs[0]
+		td.Type = &model.Type{Ref: model.Ref{Name: []string{"int32", "boolean", "uint8"}[rt.Intn(3)]}}
+		td.Default = ""
+	}
+	s.Mods = append(s.Mods, older)
+	return m.Name
 }
